@@ -38,22 +38,36 @@ theorem current_default_layout_no_overlap (o : Nat → Nat) (procs : List Proc) 
   simp only [Option.map_some, Option.some.injEq, decide_eq_true_eq] at h
   exact layout_no_overlap o c h procs n c.sy hnd hcl
 
-/-- Go type name of an activity kind -/
-def goName : Kind → String
-  | .task => "Task" | .businessRuleTask => "BusinessRuleTask" | .userTask => "UserTask"
-  | .callActivity => "CallActivity" | .manualTask => "ManualTask" | .sendTask => "SendTask"
-  | .scriptTask => "ScriptTask" | .serviceTask => "ServiceTask" | .receiveTask => "ReceiveTask"
-  | .subProcess => "SubProcess" | .adHocSubProcess => "AdHocSubProcess" | .transaction => "Transaction"
-  | .activity => "Activity" | .startEvent => "StartEvent" | .endEvent => "EndEvent"
-
-def allKinds : List Kind :=
-  [.startEvent, .endEvent, .task, .businessRuleTask, .userTask, .callActivity, .manualTask, .sendTask, .scriptTask,
+/-- every kind `AddActivity` can be handed -/
+def activityKinds : List Kind :=
+  [.task, .businessRuleTask, .userTask, .callActivity, .manualTask, .sendTask, .scriptTask,
    .serviceTask, .receiveTask, .subProcess, .adHocSubProcess, .transaction, .activity]
 
-/-- the type switch of `AddActivity` names exactly the kinds the model stores -/
-theorem current_stored_types :
-    (Bpmn.Gen.C19.addActivityStored.map fun names =>
-      allKinds.all fun k => decide (actOk k) == names.contains (goName k)) = some true := by decide
+theorem activityKinds_complete (k : Kind) : isActivity k ↔ k ∈ activityKinds := by
+  cases k <;> simp [isActivity, activityKinds]
+
+/-- the type switch of `AddActivity` as extracted from the current tree (`none`: the switch was not found) -/
+def currentStored : Option (Kind → Bool) := Bpmn.Gen.C19.addActivityStored.map storedBy
+
+/-- does the extracted switch store every activity type? Either answer type-checks (only a switch that cannot
+be found does not): the finding `activity_not_stored` disappears by itself once the switch is complete. -/
+theorem current_stored_dichotomy :
+    currentStored.map (fun st => activityKinds.all st) = some true ∨
+    currentStored.map (fun st => activityKinds.all st) = some false := by decide
+
+/-- C19 for the types the extracted switch stores, and the two sides of the dichotomy at the extracted switch -/
+theorem current_C19 : ∀ st, currentStored = some st →
+    C19_statement_stored st ∧
+    (activityKinds.all st = true → C19_statement st) ∧
+    (∀ k ∈ activityKinds, st k = false → ¬ C19_statement st) := by
+  intro st _
+  refine ⟨C19_holds_partial st, ?_, ?_⟩
+  · intro hall
+    apply C19_general
+    intro k hk
+    exact List.all_eq_true.mp hall k ((activityKinds_complete k).mp hk)
+  · intro k hk hst
+    exact C19_counterexample_activity_not_stored st k ((activityKinds_complete k).mpr hk) hst
 
 /-- where the ids come from: `RandBytes` either builds a clock-seeded source on every call (the oracle is then a
 function of the clock reading and NOT injective — known finding D14) or it does not; the construct was found -/
